@@ -561,6 +561,14 @@ func scenarios() []*explore.Scenario {
 	r2.gens = [][]int{{1}, {}}
 	r2.name = "recover/n5/tmp@1+3"
 	add(r2, 1, 2)
+	// more chunk files than the queue takes in at startup, together exactly at the size limit: the files left on disk still
+	// count against the limit when the next chunk is spilled
+	for _, mem := range []int{0, 2} {
+		o := params{memCap: mem, queueCap: 2, maxBuf: 10, dirOK: true, consumerAlt: 3, prefill: 10}
+		o.gens = [][]int{{1, 1}, {1}}
+		o.name = fmt.Sprintf("recover/overfull/mem%d/q2/max10", mem)
+		add(o, 1, 2)
+	}
 	// large backlogs (scale boundaries of the directory scan: more entries than any plausible read batch), default schedule
 	for _, n := range []int{300, 1100, 2100, 4200} {
 		b := params{memCap: 2, queueCap: n + 10, maxBuf: 1 << 20, dirOK: true, consumerAlt: 1, prefill: n, maxSteps: 400 * n}
